@@ -45,10 +45,20 @@ func HarnessC13(a []int) {
 	for b := 0; b < nBusy; b++ {
 		sock.in <- &knxnet.RoutingBusy{WaitTime: wait, Control: uint16(nondetChoice(2))}
 	}
+	lost := 0
+	if len(a) > 5 && a[5] > 0 {
+		// a lost indication after the senders are done: the repetitions are paced like any transmission
+		verifSleep(int64(5 * time.Second))
+		lost = a[5]
+		if lost > nS*per {
+			lost = nS * per
+		}
+		sock.in <- &knxnet.RoutingLost{Count: uint16(a[5])}
+	}
 	verifSleep(int64(10 * time.Second))
 	verifQuiesce()
 	verifAssert("C13.every_send_returns", returned == nS*per)
-	verifAssert("C13.all_transmitted", len(sock.log) == nS*per)
+	verifAssert("C13.all_transmitted", len(sock.log) == nS*per+lost)
 	for i := 1; i < len(sock.stamps); i++ {
 		verifAssert("C13.pacing_gap", sock.stamps[i]-sock.stamps[i-1] >= int64(pause))
 	}
@@ -62,6 +72,9 @@ func HarnessC13(a []int) {
 	for i := 0; i < verifLockCount(&router.sendMu); i++ {
 		if verifLockThread(&router.sendMu, i) != serveID {
 			continue
+		}
+		if busySeen == nBusy {
+			break // a later acquisition by the server goroutine belongs to the lost indication (resendLost)
 		}
 		busySeen++
 		T := verifLockTime(&router.sendMu, i)
